@@ -119,6 +119,24 @@ def tf_random(rng, n, maxlen):
         yield {"kind": "tf", "delim": d, "from_end": rng.random() < 0.4, "pre": pre, "chunks": chunks}
 
 
+# characters that str.splitlines() (but not split("\n")) treats as line boundaries: they are ordinary payload
+LINEBREAKISH = ["\x0b", "\x0c", "\x1c", "\x1d", "\x1e", "\x85"]
+
+
+def tf_linebreakish(rng, n, maxlen):
+    """the default delimiter "\n" over texts whose payload contains other line-boundary characters"""
+    alpha0 = ["a", "\n", "\x0c", "\x1e"]
+    for L in range(0, 4):                          # exhaustive: every text up to 3 chars, every chunking
+        for tup in itertools.product(alpha0, repeat=L):
+            for comp in compositions("".join(tup)):
+                yield {"kind": "tf", "delim": "\n", "from_end": False, "pre": "", "chunks": comp if comp else [""]}
+    for _ in range(n):
+        alpha = ["a", "b", "\n", "\n"] + rng.sample(LINEBREAKISH, rng.choice([1, 2, 3]))
+        text = "".join(rng.choice(alpha) for _ in range(rng.randint(0, maxlen)))
+        chunks = insert_empties(rng, random_cuts(rng, text), p=rng.choice([0, 0.2])) or [""]
+        yield {"kind": "tf", "delim": "\n", "from_end": False, "pre": "", "chunks": chunks}
+
+
 def sp_exhaustive(delims, maxlen):
     for d in delims:
         alpha = alphabet_for(d)
